@@ -416,12 +416,57 @@ def run_getvalues_consumption(rep, facts):
         rep.undecidable("R6.6", "getvalues-drive/partial-consumption", "no path with an incomplete body found", b.loc())
 
 
+def run_config_buffer_pairing(rep, facts):
+    """R6.7: "the effective buffer is never smaller than the configured size": a parser's configuration and its buffer are established together.
+    After construction nothing may replace the configuration of a parser without giving it the buffer that belongs to that configuration
+    (a hand-written Clone::clone_from that keeps the old allocation "when it is big enough for the buffered bytes" does exactly that)."""
+    rep.rule("R6.7", "a parser's `config` is never assigned after construction unless, on the same path, its buffer is replaced by a clone of the buffer of the parser "
+                     "the configuration comes from")
+    import paths
+    n_w = 0
+    for (P, buf) in ((RP, "input"), (SP, "buffer")):
+        writers = {}
+        for (b, bi, how, sp) in F.field_accesses(facts, P, "config"):
+            if how == "write":
+                writers[b.path] = b
+        for b in writers.values():
+            g = ieg.IEG(facts, b, inline_filter=lambda x: False)
+            bad = None
+            for r in paths.rows(g, max_paths=20000):
+                if r.end != 'return':
+                    continue
+                w = {}
+                for (pl, val, nd, s_) in r.writes:
+                    if pl[0] == 'field' and ir.peel(pl[1])[0] == 'param':
+                        w[str(pl[2])] = ir.peel(val)
+                if 'config' not in w:
+                    continue
+                n_w += 1
+                src = w['config']
+                src_base = ir.peel(src[1]) if src[0] == 'field' else None
+                okb = False
+                if buf in w and src_base is not None:
+                    v = w[buf]
+                    okb = v[0] == 'call' and v[1].endswith("Clone>::clone") and v[2] and ir.peel(v[2][0])[0] == 'field' \
+                        and ir.peel(v[2][0])[2] == buf and ir.peel(ir.peel(v[2][0])[1]) == src_base
+                if not okb:
+                    bad = "a path assigns `config` (%s) and keeps / rebuilds the buffer independently of it" % ir.show(src)[:40]
+            key = "config-writer[%s]" % b.npath
+            if bad:
+                rep.violation("R6.7", key, bad + ": the effective buffer may then be smaller than the configured size", b.loc())
+            else:
+                rep.ok("R6.7", key, "every path that assigns `config` also installs a clone of the source parser's buffer", b.loc())
+    if not n_w:
+        rep.ok("R6.7", "config-writers", "no function assigns a parser's `config` after construction (constructors and the derived Clone build configuration and buffer together: R6.1)")
+
+
 def main(rep, tier):
     f = F.load(("async", "http"))
     rep.configs.append({"features": "async,http", "profile": "debug", "bodies": len(f.bodies)})
     check.guard(rep, "R6", run, f)
     check.guard(rep, "R6.4", run_record_end, f)
     check.guard(rep, "R6.6", run_getvalues_consumption, f)
+    check.guard(rep, "R6.7", run_config_buffer_pairing, f)
     rep.floor("R6", "rule instances", len([i for i in rep.instances if i["status"] == "ok"]), 9)
     return rep.finish(
         "Sentence 2 of the statement is decided outright as a path rule on request::Parser::parse (not done => room left, else StuckOnInput "
